@@ -60,14 +60,38 @@ namespace smt
         if (const auto at_expr = exprs.find(s_expr); at_expr != exprs.cend()) // the expression already exists..
             return at_expr->second;
         else
-        { // we need to create a new slack variable..
+        {
+            // the rows of the tableau mention non-basic variables only: we replace the basic variables of the given expression with their rows..
+            lin expr = l;
+            std::vector<var> vars;
+            vars.reserve(expr.vars.size());
+            for ([[maybe_unused]] const auto &[v, c] : expr.vars)
+                vars.push_back(v);
+            for (const auto &v : vars)
+                if (const auto at_v = tableau.find(v); at_v != tableau.cend())
+                {
+                    rational c = expr.vars[v];
+                    expr.vars.erase(v);
+                    expr += at_v->second->l * c;
+                }
+
+            const std::string s_subst = to_string(expr);
+            if (const auto at_subst = exprs.find(s_subst); at_subst != exprs.cend())
+            { // the expression, once rewritten, already exists: the given expression becomes another name for the same variable..
+                const var x = at_subst->second;
+                exprs.emplace(s_expr, x);
+                return x;
+            }
+
+            // we need to create a new slack variable (notice that 'expr' might have no variables at all, in which case the slack variable is a constant)..
             assert(sat->root_level());
             const var slack = new_var();
             exprs.emplace(s_expr, slack);
-            c_bounds[lb_index(slack)] = {lb(l), TRUE_lit}; // we set the lower bound at the lower bound of the given linear expression..
-            c_bounds[ub_index(slack)] = {ub(l), TRUE_lit}; // we set the upper bound at the upper bound of the given linear expression..
-            vals[slack] = value(l);                        // we set the initial value of the new slack variable at the value of the given linear expression..
-            new_row(slack, l);                             // we add a new row into the tableau..
+            exprs.emplace(s_subst, slack);
+            c_bounds[lb_index(slack)] = {lb(expr), TRUE_lit}; // we set the lower bound at the lower bound of the linear expression..
+            c_bounds[ub_index(slack)] = {ub(expr), TRUE_lit}; // we set the upper bound at the upper bound of the linear expression..
+            vals[slack] = value(expr);                        // we set the initial value of the new slack variable at the value of the linear expression..
+            new_row(slack, expr);                             // we add a new row into the tableau..
             return slack;
         }
     }
